@@ -53,7 +53,7 @@ ASSUME = [
 ]
 TRUSTED = ["h5py, pandas, cyvcf2 as used by the library", "pbmon/oracle/obsequal.py"]
 TOL = 1e-9
-QUICK_TOTAL, THOROUGH_TOTAL = 6000, 320000
+QUICK_TOTAL, THOROUGH_TOTAL = 6000, 240000
 
 
 # =============================================================== helpers
@@ -543,6 +543,8 @@ def judge(ctx, clause, site, src_obs, got_obs, meta, coords, fmt, tol=None, skip
     d = OE.diff(src_obs, got_obs, tol=tol, skip=skip)
     if tol is not None:     # routes compared with a tolerance: report how much of it was used
         for f in OE.FAMILY[src_obs["__family__"]]["data"] + OE.FAMILY[src_obs["__family__"]]["params"]:
+            if f in skip:
+                continue
             a, b = src_obs.get(f), got_obs.get(f)
             if isinstance(a, numpy.ndarray) and isinstance(b, numpy.ndarray) and a.shape == b.shape and a.dtype.kind == "f" \
                     and b.dtype.kind == "f" and a.size:
